@@ -862,6 +862,11 @@ func (w *vfc13World) tick(site int, dt int64) {
 
 func (w *vfc13World) expire(site int, k []byte) {
 	w.evs = append(w.evs, fmt.Sprintf("x%s:%s", vfc13SiteName(site), vfutil.Hex(k)))
+	if bytes.HasPrefix(k, []byte("redis-gunyu-bisync:")) || bytes.HasPrefix(k, []byte("redis-gunyu-checkpoint")) {
+		// a bookkeeping key (a marker) expiring: not a write of this site's clients
+		w.sites[site].activeExpire(k, func(int) string { return "book" })
+		return
+	}
 	w.sites[site].activeExpire(k, w.foreignTag(!vfc13IsReserved(k)))
 }
 
